@@ -21,7 +21,8 @@ import (
 )
 
 func ParseSps(payload []byte, ctx *Context) error {
-	br := nazabits.NewBitReader(payload)
+	// the syntax elements are coded in the RBSP, i.e. after the emulation prevention bytes have been removed
+	br := nazabits.NewBitReader(nal2rbsp(payload))
 	var sps Sps
 	if err := parseSpsBasic(&br, &sps); err != nil {
 		Log.Errorf("parseSpsBasic failed. err=%+v, payload=%s", err, hex.Dump(nazabytes.Prefix(payload, 128)))
@@ -40,11 +41,41 @@ func ParseSps(payload []byte, ctx *Context) error {
 	}
 	Log.Debugf("sps=%+v", sps)
 
-	ctx.Width = (sps.PicWidthInMbsMinusOne+1)*16 - (sps.FrameCropLeftOffset+sps.FrameCropRightOffset)*2
-	ctx.Height = (2-uint32(sps.FrameMbsOnlyFlag))*(sps.PicHeightInMapUnitsMinusOne+1)*16 - (sps.FrameCropTopOffset+sps.FrameCropBottomOffset)*2
+	// ISO-14496-10.pdf 7.4.2.1.1, frame_crop_*_offset: the offsets are in units of CropUnitX/CropUnitY, which depend
+	// on the chroma format (Table 6-1 SubWidthC/SubHeightC) and on frame_mbs_only_flag
+	cropUnitX := uint32(1)
+	cropUnitY := 2 - uint32(sps.FrameMbsOnlyFlag)
+	switch sps.ChromaFormatIdc {
+	case 1: // 4:2:0
+		cropUnitX = 2
+		cropUnitY *= 2
+	case 2: // 4:2:2
+		cropUnitX = 2
+	}
+	ctx.Width = (sps.PicWidthInMbsMinusOne+1)*16 - (sps.FrameCropLeftOffset+sps.FrameCropRightOffset)*cropUnitX
+	ctx.Height = (2-uint32(sps.FrameMbsOnlyFlag))*(sps.PicHeightInMapUnitsMinusOne+1)*16 - (sps.FrameCropTopOffset+sps.FrameCropBottomOffset)*cropUnitY
 
 	ctx.Sps = sps
 	return nil
+}
+
+// nal2rbsp removes the emulation_prevention_three_byte (ISO-14496-10.pdf 7.3.1, 7.4.1): a 0x03 that follows two zero bytes
+func nal2rbsp(nal []byte) []byte {
+	rbsp := make([]byte, 0, len(nal))
+	zeros := 0
+	for _, b := range nal {
+		if zeros >= 2 && b == 3 {
+			zeros = 0
+			continue
+		}
+		rbsp = append(rbsp, b)
+		if b == 0 {
+			zeros++
+		} else {
+			zeros = 0
+		}
+	}
+	return rbsp
 }
 
 // TryParsePps 尝试解析PPS所有字段，实验中，请勿直接使用该函数
